@@ -119,7 +119,9 @@ export function judge(ctx, c, res) {
       if (fresh.error) { report.count('fresh_creation_throws'); return }
       const a = snap(ge, live.comp, live.tr, {})
       const b = snap(ge, fresh.comp, fresh.tr, {})
-      const d = diffSnap(maskPaths(a), maskPaths(b))
+      // when the runtime fell back to the tree update, stale l-value paths are C06's business (and a recorded
+      // finding there); what the binding-map updaters themselves leave behind is compared in full
+      const d = viaTree ? diffSnap(maskPaths(a), maskPaths(b)) : diffSnap(a, b)
       if (d) {
         viol(`after the binding-map update of "${f}" the instance differs from a fresh creation: ${d}`.slice(0, 500), { field: f, viaTree, updated: showSnap(a).slice(0, 2500), fresh: showSnap(b).slice(0, 2500), diff: d })
         return
@@ -139,6 +141,14 @@ export function makeCases(ctx, n, fixed = null) {
     // biased towards flat templates (many mapped positions) with a few dynamic subtrees
     const genOpts = { allowSlot: true, safeLists: true, maxDepth: r.pick([1, 1, 2, 3]), maxTop: 6, withInclude: r.bool(0.08), nDefs: r.int(2) }
     const fs_ = genFileSet(r, genOpts)
+    // event / change bindings whose handler is a script-module member selected by a data field: the binding-map
+    // updater must hand over the same l-value path as the creation code
+    const main = fs_.files[fs_.main]
+    if ((main.wxs || []).some((w) => w.module === 'm') && r.bool(0.6)) {
+      const k = () => X.id(r.pick(DATA_NAMES))
+      const forms = [() => X.idx(X.id('m'), k()), () => X.idx(X.mem(X.id('m'), 'x'), k()), () => X.cond(k(), X.mem(X.id('m'), 'f'), X.mem(X.id('m'), 'g')), () => X.mem(X.idx(X.id('m'), k()), 'y')]
+      main.children.push({ t: 'el', tag: 'p', attrs: [{ fam: r.pick(['bind', 'catch', 'mut-bind', 'capture-bind']), name: 'tap', value: M.ev(r.pick(forms)()) }, { fam: 'change', name: 'v', value: M.ev(r.pick(forms)()) }], children: [] })
+    }
     let sources
     try { sources = printFileSet(fs_, { rng: r, between: true }) } catch (e) { if (/adjacent text/.test(e.message)) continue; throw e }
     cases.push({ id: cases.length, caseSeed, fs: fs_, sources, dataSeed: r.u32() })
